@@ -21,7 +21,7 @@ ISOLATE = "chunk"       # every chunk of runs in a forked child of a pristine wo
                         # deterministic function of the runs before it in the same chunk (see runner.run_history_iso)
 SHRINK_LISTS = ("ops",)
 PROBES = {"C03": ["history>=1000", "history>=10000", "act4:w=0", "float32", "batched", "scale-steered",
-                  "assoc", "act-compose", "identity", "inverse", "reinit-from-identity", "logscale>8", "identity_-through-view:[::2]", "identity_-through-view:[:, 0]", "operand:expanded", "operand:broadcast", "operand:non-contiguous", "operand:deepcopied", "translation-rebased", "operand:exact-half-turn", "act-operator-forms"]}
+                  "assoc", "act-compose", "identity", "inverse", "reinit-from-identity", "logscale>8", "identity_-through-view:[::2]", "identity_-through-view:[:, 0]", "operand:expanded", "operand:broadcast", "operand:non-contiguous", "operand:deepcopied", "translation-rebased", "operand:exact-half-turn", "act-operator-forms", "act:large-cloud", "large-batch-products"]}
 TS = float(os.environ.get("PPSIM_TOLSCALE", "1"))
 UPDATES = ("mulr", "mull", "inv", "add_", "plus", "retr", "idl", "idr", "reinit", "ident_view")
 PROBE_OPS = ("act3", "act4", "assoc", "actcomp", "access", "invlaw", "actop")
@@ -346,7 +346,17 @@ def execute(plan, prop, out, tr):
             # ---- probes: laws checked at the current state, state unchanged.  pypose does not renormalise the
             # quaternion, the reference matrix of an element does: both differ by the accumulated norm drift.
             CP = C_LOC * (1 + 0.1 * n_upd)
-            if op == "act3":
+            if op == "act3" and i % 3 == 0:
+                # one transform acting on a large cloud (300 points), through a broadcast over the point axis
+                p = rng.randn(s, ("g", i, "pbig"), bs + (300, 3), dtype, 2.0)
+                Xb_ = X.unsqueeze(-2) if bs else X
+                got = npd(Xb_.Act(p))
+                want = np.einsum("...ij,...kj->...ki", MX[..., :3, :3], npd(p)) + MX[..., None, :3, 3]
+                e = np.abs(got - want).max()
+                if not e <= CP * eps * nX * (1 + np.abs(npd(p)).max()):
+                    raise Violation("C03.act", "op #%d Act on a cloud of 300 3-vectors differs from matrix multiplication by %.3e" % (i, e), i, "act3:cloud")
+                out.probe("act:large-cloud")
+            elif op == "act3":
                 p = rng.randn(s, ("g", i, "p"), bs + (3,), dtype, 2.0)
                 got = npd(X.Act(p))
                 want = np.einsum("...ij,...j->...i", MX[..., :3, :3], npd(p)) + MX[..., :3, 3]
@@ -396,8 +406,34 @@ def execute(plan, prop, out, tr):
                 if not e <= CP * eps * sc:
                     raise Violation("C03.act", "op #%d (X@Y).Act(p) and X.Act(Y.Act(p)) differ by %.3e" % (i, e), i, "actcomp")
                 out.probe("act-compose")
+            elif op == "access" and i % 4 == 0:
+                # two large operands that both have to be materialised: mutual broadcasting (A,1) x (1,B)
+                A_, B_ = 36, 34
+                ya = lie(rng.randn(s, ("g", i, "ba"), (A_, 1, md), torch.float64, 0.5).to(dtype), fam, False).Exp()
+                yb = lie(rng.randn(s, ("g", i, "bb"), (1, B_, md), torch.float64, 0.5).to(dtype), fam, False).Exp()
+                Ma, Mb = to_mat(fam, npd(ya)), to_mat(fam, npd(yb))
+                got = to_mat(fam, npd(ya @ yb))
+                want = Ma @ Mb
+                e = np.abs(got - want).max()
+                if got.shape != want.shape or not e <= C_LOC * eps * np.abs(Ma).max() * np.abs(Mb).max():
+                    raise Violation("C03.homomorphism", "op #%d product of lshape (%d,1) with (1,%d) differs from the matrix products by "
+                                    "%.3e" % (i, A_, B_, e), i, "hom:big-broadcast")
+                # and two non-contiguous column slices of one big buffer
+                traj = lie(rng.randn(s, ("g", i, "traj"), (160, 2, md), torch.float64, 0.5).to(dtype), fam, False).Exp()
+                c0, c1_ = traj[:, 0], traj[:, 1]
+                got2 = to_mat(fam, npd(c0 @ c1_)); want2 = to_mat(fam, npd(c0)) @ to_mat(fam, npd(c1_))
+                e2 = np.abs(got2 - want2).max()
+                if not e2 <= C_LOC * eps * np.abs(want2).max() * 4:
+                    raise Violation("C03.homomorphism", "op #%d product of two column slices of a (160,2) batch differs from the matrix "
+                                    "products by %.3e" % (i, e2), i, "hom:column-slices")
+                out.probe("large-batch-products")
             elif op == "access":
                 Mp = npd(X.matrix())
+                # a matrix() result belongs to the caller: asking for another element's matrix must not change it
+                Mkeep = X.matrix(); Mkeep0 = Mkeep.clone()
+                _other = grp(i, "other").matrix()
+                if not torch.equal(Mkeep, Mkeep0):
+                    raise Violation("C03.matrix", "op #%d a matrix() result changed when matrix() was called on another element" % i, i, "matrix:aliased")
                 blk = MX[..., :3, :3] if Mp.shape[-1] == 3 else MX
                 e = np.abs(Mp - blk).max()
                 if not e <= CP * eps * nX:
